@@ -226,32 +226,10 @@ def has_cycle(case):
 # ------------------------------------------------------------------------------------------------
 # the oracle: meaning of a sheet
 def url_regions(u, nested, ctx):
-    """known-finding regions that apply to this url() occurrence (used only to explain a mismatch)"""
-    if ctx['depth'] == 0:
-        return frozenset()
-    try:
-        sp = up.urlsplit(u)
-    except ValueError:
-        return frozenset(['unsplittable'])
-    if sp.scheme:
-        return frozenset()
-    if sp.netloc or sp.path.startswith('/'):
-        # a scheme-relative or root-relative URL is kept as it is: right unless the sheet came from another origin
-        return frozenset(['C19-rebase-other-origin']) if ctx['origin_change'] else frozenset()
-    out = set()
-    if nested:
-        out.add('C19-url-in-function')
-    if ctx['origin_change']:
-        out.add('C19-rebase-other-origin')
-    if sp.path == '':
-        out.add('C19-rebase-same-document')
-    else:
-        last = sp.path.split('/')[-1]
-        if last in ('', '.', '..'):
-            out.add('C19-rebase-trailing-slash')
-        if set(sp.path) & RESERVED:
-            out.add('C19-rebase-reserved-chars')
-    return frozenset(out)
+    """known-finding regions that apply to this url() occurrence (used only to explain a mismatch).
+    The re-basing findings (same-document references, other origin, trailing slash, reserved characters, url() in
+    function arguments) are fixed: no region is left, every URL that resolves differently is a violation."""
+    return frozenset()
 
 
 class Meaning:
@@ -266,13 +244,16 @@ class Meaning:
         self.misresolving = set()                # hrefs of @imports in imported sheets that would resolve to
                                                  # something else if they stood in the main sheet
         self.top_imports = []                    # (href, available) of the sheet's own @import rules
+        self.top_media = []                      # their media
 
     def comps(self, cs, href, ctx, nested=False):
         out = []
         for c in cs:
             if c[0] == 'u':
                 try:
-                    a = norm_abs(up.urljoin(href, c[1]))
+                    # RFC 3986 5.2.2: an empty reference is the base without its fragment (urljoin hands the base
+                    # back unchanged, fragment included)
+                    a = norm_abs(up.urljoin(href, c[1]) if c[1] else up.urldefrag(href)[0])
                 except ValueError:
                     a = 'unjoinable:' + c[1]
                 out.append(('u', a, url_regions(c[1], nested, ctx)))
@@ -296,6 +277,7 @@ class Meaning:
                 m = media + ((r[2],) if r[2] != 'all' else ())
                 if ctx['depth'] == 0:
                     self.top_imports.append((r[1], full in self.vfs and full not in chain))
+                    self.top_media.append(r[2])
                 else:
                     try:
                         if up.urljoin(chain[0], r[1]) != full:
@@ -359,6 +341,13 @@ def url_diffs(a, b, out):
             return False
         return all(url_diffs(x, y, out) for x, y in zip(a, b))
     return a == b
+
+
+def unmerged_imports(orig, flat):
+    """@imports left in a flattened sheet that had to be merged: no media and the target is available.
+    (An @import is kept only when its target is unavailable or cannot be wrapped in its media.)"""
+    return [h for (h, avail), m in zip(flat.top_imports, flat.top_media) if avail and m == 'all'
+            and h not in orig.misresolving]
 
 
 def compare_meaning(orig, flat):
